@@ -27,6 +27,8 @@ import (
 	"net"
 	"net/http"
 	"net/url"
+	"os"
+	"runtime"
 	"sort"
 	"strconv"
 	"strings"
@@ -43,7 +45,13 @@ func TestVerifC14(t *testing.T) {
 	vu.Run(cfg, c14Gen, func(ops []string, o *vu.Out) { c14Exec(ops, o) })
 }
 
-const c14Watchdog = 30 * time.Second
+var c14Watchdog = 20 * time.Second
+
+func init() {
+	if v, err := strconv.Atoi(os.Getenv("C14_WATCHDOG_MS")); err == nil && v > 0 {
+		c14Watchdog = time.Duration(v) * time.Millisecond
+	}
+}
 
 // ---------------------------------------------------------------- in-memory recorded conn
 
@@ -132,6 +140,17 @@ func (r *c14Rec) tap(dir int, b []byte) {
 	}
 }
 
+func (r *c14Rec) sawSettingsAck(dir int) bool {
+	r.mu.Lock()
+	defer r.mu.Unlock()
+	for _, f := range r.frames {
+		if f.dir == dir && f.typ == 4 && f.flags&1 != 0 {
+			return true
+		}
+	}
+	return false
+}
+
 type c14Addr struct{}
 
 func (c14Addr) Network() string { return "c14" }
@@ -169,6 +188,7 @@ type c14Cfg struct {
 	sfs, sws, scw, sdt, set int // server: MaxReadFrameSize, upload windows, hpack table sizes
 	cfs, cws, ccw, cdt, cet int // client
 	gz                      int // 1 = Transport compression enabled (adds accept-encoding: gzip)
+	early                   int // 1 = requests start before the server's SETTINGS have been processed
 }
 
 type c14Req struct {
@@ -277,8 +297,8 @@ func c14B(b bool) int {
 }
 
 func (c c14Cfg) line() string {
-	return fmt.Sprintf("cfg sfs=%d sws=%d scw=%d sdt=%d set=%d cfs=%d cws=%d ccw=%d cdt=%d cet=%d gz=%d",
-		c.sfs, c.sws, c.scw, c.sdt, c.set, c.cfs, c.cws, c.ccw, c.cdt, c.cet, c.gz)
+	return fmt.Sprintf("cfg sfs=%d sws=%d scw=%d sdt=%d set=%d cfs=%d cws=%d ccw=%d cdt=%d cet=%d gz=%d early=%d",
+		c.sfs, c.sws, c.scw, c.sdt, c.set, c.cfs, c.cws, c.ccw, c.cdt, c.cet, c.gz, c.early)
 }
 
 func c14KVmap(toks []string) map[string]string {
@@ -627,7 +647,7 @@ func c14ParseCase(ops []string) (*c14Case, error) {
 			m := c14KVmap(toks[1:])
 			g := func(k string) int { return vu.Atoi(m[k]) }
 			c.cfg = c14Cfg{sfs: g("sfs"), sws: g("sws"), scw: g("scw"), sdt: g("sdt"), set: g("set"),
-				cfs: g("cfs"), cws: g("cws"), ccw: g("ccw"), cdt: g("cdt"), cet: g("cet"), gz: g("gz")}
+				cfs: g("cfs"), cws: g("cws"), ccw: g("ccw"), cdt: g("cdt"), cet: g("cet"), gz: g("gz"), early: g("early")}
 			haveCfg = true
 		case "req":
 			m, gr := c14Groups(toks[1:])
@@ -751,7 +771,22 @@ func c14Exec(ops []string, o *vu.Out) {
 	watchdog := time.NewTimer(c14Watchdog)
 	defer watchdog.Stop()
 	cc, ccErr := tr.NewClientConn(cconn)
-	if ccErr == nil {
+	if ccErr == nil && c.cfg.early == 0 {
+		// Let the SETTINGS exchange complete first (the client has written its SETTINGS ACK), so that
+		// the peers' limits are in force before the first request: what a client may send before it
+		// has seen the server's SETTINGS is a separate question (see the `early` scenario).
+		for !rec.sawSettingsAck(0) {
+			select {
+			case <-watchdog.C:
+				timedOut = true
+			default:
+				time.Sleep(100 * time.Microsecond)
+				continue
+			}
+			break
+		}
+	}
+	if ccErr == nil && !timedOut {
 		done := make(chan int, n)
 		pending := 0
 	launch:
@@ -810,6 +845,10 @@ func c14Exec(ops []string, o *vu.Out) {
 		o.Fail("newclientconn", ccErr.Error())
 	}
 	if timedOut {
+		if os.Getenv("C14_DUMP") != "" {
+			buf := make([]byte, 1<<20)
+			os.Stderr.Write(buf[:runtime.Stack(buf, true)])
+		}
 		o.Fail("hang", fmt.Sprintf("exchange did not finish within %v", c14Watchdog))
 		o.Op("end", "timeout")
 		return
@@ -965,8 +1004,12 @@ func (c *c14Case) oracle(i int, o *vu.Out) {
 		return
 	}
 	// ---- request: handler-observed = submitted
-	if sq.method != rq.method {
-		failQ("method %q != %q", sq.method, rq.method)
+	wantMethod := rq.method
+	if wantMethod == "" {
+		wantMethod = "GET" // documented default
+	}
+	if sq.method != wantMethod {
+		failQ("method %q != %q", sq.method, wantMethod)
 	}
 	if sq.uri != rq.path {
 		failQ("RequestURI %q != %q", sq.uri, rq.path)
